@@ -54,7 +54,8 @@ def compute_poc(force, method="deviation_from_baseline", ret_details=False):
             break
     else:
         raise ValueError(f"Undefined POC method '{method}'!")
-    if np.isnan(cp):
+    if np.isnan(cp) or not 0 <= cp < max(force.size, 1):
+        # no (valid) estimate: fall back to the center of the data
         cp = force.size // 2
     if ret_details:
         return cp, details
@@ -167,7 +168,7 @@ def poc_fit_constant_line(force, ret_details=False):
 
     cp = np.nan
     details = {}
-    if force.size > 4:  # 3 fit parameters
+    if force.size > 4 and np.ptp(force) > 0:  # 3 fit parameters
         # normalize force
         fmin = np.min(force)
         fptp = np.max(force) - fmin
@@ -250,7 +251,7 @@ def poc_fit_constant_polynomial(force, ret_details=False):
 
     cp = np.nan
     details = {}
-    if force.size > 6:  # 5 fit parameters
+    if force.size > 6 and np.ptp(force) > 0:  # 5 fit parameters
         fmin = np.min(force)
         fptp = np.max(force) - fmin
         y = (force - fmin) / fptp
@@ -350,7 +351,7 @@ def poc_fit_line_polynomial(force, ret_details=False):
 
     cp = np.nan
     details = {}
-    if force.size > 7:  # 6 fit parameters
+    if force.size > 7 and np.ptp(force) > 0:  # 6 fit parameters
         fmin = np.min(force)
         fptp = np.max(force) - fmin
         y = (force - fmin) / fptp
@@ -362,7 +363,7 @@ def poc_fit_line_polynomial(force, ret_details=False):
         params.add('d', value=np.mean(y[:10]))
         params.add('x0', value=x0)
         # slope
-        params.add('m', value=y[x0]/x0)
+        params.add('m', value=y[x0]/x0 if x0 else 0)
         # The polynomial fitting parameters are supposed to be
         # greater than zero (source?). We set the minimum to 1e-3 so
         # the fitting algorithm becomes more stable. Also, the initial
@@ -410,6 +411,9 @@ def poc_frechet_direct_path(force, ret_details=False):
     contact point. For shorter baselines, the contact point will
     be closer to the point of maximum indentation.
     """
+    if force.size == 0:
+        # nothing left after clipping (force maximum at the first point)
+        return (np.nan, {}) if ret_details else np.nan
     x = np.linspace(0, 1, len(force), endpoint=True)
     y = (force - force.min()) / (force.max() - force.min())
 
